@@ -111,17 +111,26 @@ let fresh_ident (p : Syntax.program) : int =
   1 + Stdlib.List.fold_left (fun m x -> max m (int_of_n x)) 8 (Rewrites.idents_program p)
 
 (* one random rewrite candidate *)
+let assoc_phrase_ids (p : Syntax.program) : BinNums.coq_N list =
+  Stdlib.List.filter_map (fun (i : Walk.pinfo) ->
+    match i.Walk.pi_ph with
+    | Walk.PStmt (Syntax.SCall (_, Syntax.ACons (_, _, _))) -> Some i.Walk.pi_id
+    | Walk.PConc (Syntax.CInstE (_, _, _, _, _, _)) | Walk.PConc (Syntax.CInstC (_, _, _, _)) -> Some i.Walk.pi_id
+    | ph -> (match Faults.phrase_root ph with Some (Syntax.ECall (_, _)) -> Some i.Walk.pi_id | _ -> None))
+    (Walk.walk_program p)
 let random_rewrite (p : Syntax.program) : Rewrites.rewrite option =
-  let kind = rand 7 in
+  let kind = rand 8 in
   let nn x = n_of_int x in
   match kind with
   | 0 -> (match pick (Faults.dup_sites p @ Rewrites.add_sites p) with Some s -> Some (Rewrites.RSwap s) | None -> None)
-  | 1 -> (match pick (Rewrites.phrase_ids p) with Some s -> Some (Rewrites.RNamed s) | None -> None)
-  | 2 -> (match pick (Rewrites.phrase_ids p) with Some s -> Some (Rewrites.RPositional s) | None -> None)
-  | 3 -> (match pick (Walk.walk_program p) with
-          | Some i -> (match pick (Rewrites.use_occs_of_phrase i) with
-                       | Some x -> Some (Rewrites.RSelected (i.Walk.pi_id, x)) | None -> None)
-          | None -> None)
+  | 1 -> (match pick (assoc_phrase_ids p) with Some s -> Some (Rewrites.RNamed s) | None -> None)
+  | 2 -> (match pick (assoc_phrase_ids p) with Some s -> Some (Rewrites.RPositional s) | None -> None)
+  | 3 | 7 ->
+    let cands = Stdlib.List.filter (fun i -> Rewrites.use_occs_of_phrase i <> []) (Walk.walk_program p) in
+    (match pick cands with
+     | Some i -> (match pick (Rewrites.use_occs_of_phrase i) with
+         | Some x -> Some (Rewrites.RSelected (i.Walk.pi_id, x)) | None -> None)
+     | None -> None)
   | 4 -> (match pick (Rewrites.use_all_sites p) with Some s -> Some (Rewrites.RUseItems s) | None -> None)
   | 5 -> (match pick (Rewrites.conc_ids p) with Some s -> Some (Rewrites.RWrap (s, nn (fresh_ident p))) | None -> None)
   | _ -> (match pick (Rewrites.add_sites p) with Some s -> Some (Rewrites.RAddDecl (s, nn (fresh_ident p), nn (rand 4))) | None -> None)
@@ -229,7 +238,7 @@ let handle_case pid tag nrew depth nfaults rseed fwant choices =
   Printf.printf "M %s fellback %b\n" base fell;
   emit_program base (tag * 64) p [];
   for k = 1 to nrew do
-    let (q, rs) = rewrite_chain p depth (depth * 12) [] in
+    let (q, rs) = rewrite_chain p depth (depth * 16) [] in
     if rs <> [] then begin
       let id = Printf.sprintf "%s.r%d" pid k in
       Printf.printf "M %s rewrites %s\n" id (Stdlib.String.concat "," (Stdlib.List.map rewrite_str rs));
